@@ -216,6 +216,9 @@ func genEpisode(r *hx.Rng, ip *interp, run func(string) string, n int, st *genSt
 				ac = nil
 			}
 			pk, vrf := "01", "01"
+			if r.Chance(1, 2) {
+				pk = h(r.Bytes(1 + r.Intn(3))) + "01" // distinct public keys: the key cache must follow the registry, not the last applicant
+			}
 			if r.Chance(1, 20) {
 				pk = []string{"-", "00"}[r.Intn(2)]
 			}
@@ -309,7 +312,31 @@ func genEpisode(r *hx.Rng, ip *interp, run func(string) string, n int, st *genSt
 		case k < 87:
 			kinds := []string{"apply-json", "add-json", "chacc-json", "refund-json", "refund-amount"}
 			run(fmt.Sprintf("bad %s %s %d", kinds[r.Intn(len(kinds))], h(e.src()), r.Intn(16)))
-		case k < 90 && !search:
+		case k < 89:
+			// apply -> partial refund below the minimum (record kept, aborted) -> top up to just below / at / above it
+			id, stake, ac, typ, ok := e.knownMiner()
+			if !ok || len(ac) == 0 {
+				break
+			}
+			min := uint64(400)
+			if typ == 1 {
+				min = 2000
+			}
+			if stake >= min && stake < 1<<40 {
+				cut := stake - min + 1 + uint64(r.Intn(3))
+				if cut < stake {
+					run(fmt.Sprintf("refund %s %s %d", h(ac), h(id), cut))
+					run("dump")
+					if r.Bool() {
+						run(fmt.Sprintf("endblock %d", ip.w.height+1))
+						run("dump")
+					}
+					left := stake - cut
+					run(fmt.Sprintf("add %s %s %d", h(e.src()), h(id), min-left+uint64(r.Intn(3))-uint64(r.Intn(2))))
+					st.inc("abort-then-topup")
+				}
+			}
+		case k < 91 && !search:
 			// stake opcodes executed by a contract that is (or is not) some miner's account
 			_, stake, ac, typ, ok := e.knownMiner()
 			kc := ac
